@@ -150,10 +150,13 @@ def r18b(model: Model, rr: RuleResult):
     else:
         rr.bad(fi, lp, "style name is not taken from this master", construct="styleName assignment")
     # location keys go through axis_names[p.axisTag], values p.position, over master.position
-    locdefs = [st for st in ast.walk(lp) if isinstance(st, ast.Assign) and norm(st.targets[0]) == "location"]
+    from ..dataflow import deref as _d18
+    _c18 = cfg_of(fi)
+    lv = kwarg(src[0], "location") if src else None
+    lv = _d18(_c18, _c18.node_for(src[0]), lv) if lv is not None else None
     ok = False
-    if locdefs and isinstance(locdefs[0].value, ast.DictComp):
-        dc = locdefs[0].value
+    if isinstance(lv, ast.DictComp):
+        dc = lv
         g = dc.generators[0]
         ok = norm(g.iter) == f"{m}.position" and norm(dc.key) == f"axis_names[{norm(g.target)}.axisTag]" and norm(dc.value) == f"{norm(g.target)}.position"
     if ok:
